@@ -560,3 +560,65 @@ Lemma update_resources_gone : forall g rs selected x,
 Proof.
   intros g rs selected x Hg Hn H. apply update_resources_spec in H. destruct H as [H | [_ H]]; [contradiction | congruence].
 Qed.
+
+(* ---------- observation._disable_unsuitable_resources (as repaired by 4448d18) ---------- *)
+
+Lemma disable_unsuitable_spec : forall rs nowatch nopatch psel x,
+  In x (disable_unsuitable rs nowatch nopatch psel) <->
+  In x rs /\ ~ In x nowatch /\ ~ (In x nopatch /\ In x psel).
+Proof.
+  intros rs nw np ps x. unfold disable_unsuitable. rewrite filter_In, andb_true_iff, !negb_true_iff, andb_false_iff.
+  split.
+  - intros [Hr [Hw Hp]]. split; [exact Hr |]. split.
+    + intros H. apply mem_gres_In in H. congruence.
+    + intros [H1 H2]. apply mem_gres_In in H1. apply mem_gres_In in H2. destruct Hp; congruence.
+  - intros [Hr [Hw Hp]]. split; [exact Hr |]. split.
+    + destruct (mem_gres x nw) eqn:E; [apply mem_gres_In in E; contradiction | reflexivity].
+    + destruct (mem_gres x np) eqn:E1; [| left; reflexivity]. destruct (mem_gres x ps) eqn:E2; [| right; reflexivity].
+      exfalso. apply Hp. split; apply mem_gres_In; assumption.
+Qed.
+
+(* a read-only kind with only event / index handlers stays served whatever else the operator handles *)
+Lemma readonly_stays_served : forall rs nowatch nopatch psel x,
+  In x rs -> ~ In x nowatch -> ~ In x psel -> In x (disable_unsuitable rs nowatch nopatch psel).
+Proof.
+  intros rs nw np ps x Hr Hw Hs. apply disable_unsuitable_spec. split; [exact Hr |]. split; [exact Hw |]. intros [_ H]; exact (Hs H).
+Qed.
+
+(* a listable/watchable kind without `patch` is dropped iff a state-storing handler selects THAT kind *)
+Lemma readonly_dropped_iff : forall rs nowatch nopatch psel x,
+  In x rs -> ~ In x nowatch -> In x nopatch ->
+  (~ In x (disable_unsuitable rs nowatch nopatch psel) <-> In x psel).
+Proof.
+  intros rs nw np ps x Hr Hw Hp. rewrite disable_unsuitable_spec. split.
+  - intros H. destruct (mem_gres x ps) eqn:E; [apply mem_gres_In; exact E |].
+    exfalso. apply H. split; [exact Hr |]. split; [exact Hw |]. intros [_ H2]. apply mem_gres_In in H2. congruence.
+  - intros Hs [_ [_ H]]. apply H. split; assumption.
+Qed.
+
+(* nothing is ever added, and a resource with all three verbs always stays *)
+Lemma disable_unsuitable_frame : forall rs nowatch nopatch psel x,
+  (In x (disable_unsuitable rs nowatch nopatch psel) -> In x rs) /\
+  (In x rs -> ~ In x nowatch -> ~ In x nopatch -> In x (disable_unsuitable rs nowatch nopatch psel)).
+Proof.
+  intros rs nw np ps x. split.
+  - intros H. apply disable_unsuitable_spec in H. apply H.
+  - intros Hr Hw Hp. apply disable_unsuitable_spec. split; [exact Hr |]. split; [exact Hw |]. intros [H _]; exact (Hp H).
+Qed.
+
+(* regression example of finding F1902 (fixed by 4448d18): two read-only kinds, x with event handlers only, y with a
+   state-storing handler: only y is dropped (before the fix both were: the result was []) *)
+Lemma readonly_regression :
+  let x := ("a.dev"%string, r_cluster) in let y := ("a.dev"%string, r_spaced) in
+  disable_unsuitable [x; y] [] [x; y] [y] = [x] /\ disable_unsuitable [x; y] [] [x] [y] = [x; y].
+Proof. vm_compute. split; reflexivity. Qed.
+
+Lemma readonly_hypotheses :
+  let x := ("a.dev"%string, r_cluster) in let y := ("a.dev"%string, r_spaced) in
+  In x [x; y] /\ ~ In x [] /\ In x [x; y] /\ ~ In x [y] /\ In y [y] /\
+  disable_unsuitable [x; y] [] [x; y] [y] = [x].
+Proof.
+  cbv zeta. split; [left; reflexivity |]. split; [tauto |]. split; [left; reflexivity |]. split.
+  - intros [H | []]. discriminate.
+  - split; [left; reflexivity | vm_compute; reflexivity].
+Qed.
